@@ -297,6 +297,25 @@ def cache_wiring(R, I, tier):
                 R.obligation(f'{label}: only the two output directories are created', s.pc, z3.BoolVal(set(mk) <= {'MD', 'TD'}), group='cache/confined')
             R.reach_any(f'{label}: success reachable', [s.pc for s in oks])
             R.samples.append({'case': label, 'paths': len(done)})
+        # ---- cache_metadata (metadata only): the same stages without targets
+        label = 'cache_metadata'
+        st = State(); st.env['fs'] = {}
+        repo, W = mk_repo(st, [])
+        chain = z3.Bool('cache_root_chain')
+        done = run_async_fn(I, st, cache_fn(I, 'cache_metadata'), [Ref(st.alloc(repo)), Obj('path', key='MD'), chain], generics={'P': '&str'})
+        R.check_interp_clean(I, label)
+        oks = []
+        for s in done:
+            R.paths += 1
+            tag, _ = classify(s.result)
+            if tag != 'Ok': continue
+            oks.append(s)
+            stages = [e for e in s.events if e[0] == 'stage']; bad = [e for e in s.events if e[0] in ('save_failed', 'stage_failed')]
+            R.obligation(f'{label}: success => nothing failed, metadata copied into the directory, root chain exactly when requested, no target touched', s.pc,
+                         z3.And(z3.BoolVal(not bad and ('stage', 'metadata', 'MD') in stages and not [e for e in s.events if e[0] == 'save_target']), chain == z3.BoolVal(('stage', 'root-chain', 'MD') in stages)), group='cache/stages')
+            R.obligation(f'{label}: only the metadata directory is created', s.pc, z3.BoolVal({e[1] for e in s.events if e[0] == 'mkdir'} <= {'MD'}), group='cache/confined')
+        R.reach_any(f'{label}: success reachable', [s.pc for s in oks])
+        R.samples.append({'case': label, 'paths': len(done)})
     finally:
         del I.models[:len(models_)]
 
